@@ -560,6 +560,13 @@ def execute(history):
                         out.violate("state_differs_after_restore", i, "right after the %s restore: %s" % (op["how"], d[1]), family=fam, how=op["how"], key=d[0].rsplit(".", 1)[-1], phase=phase)
             elif k == "save_point":
                 src = A
+                if src.is_var and not all(bool(v.item()) for kk, v in src.model.state_dict().items() if kk.endswith("variational_params_initialized")):
+                    # a variational model that was never called initialises q(u) - with random noise - at its first call: a
+                    # checkpoint of it has no prediction of its own to be compared with.  Use the model once before saving.
+                    warm = {"op": "predict", "seed": op["seed"] + 1, "t": 1, "bundle": [], "grad": False}
+                    for live in [A] + ([B] if B is not None else []):
+                        driver.apply(live, warm, out)
+                    out.stats["probe:model_used_before_save_point"] += 1
                 buf = io.BytesIO()
                 torch.save(src.model.state_dict(), buf)
                 probe = {"op": "predict", "seed": op["seed"], "t": 2, "bundle": [], "grad": False}
